@@ -270,8 +270,8 @@ Qed.
 Lemma serialize_attrs_kv d : forall a1 a2, map kv a1 = map kv a2 -> serialize_attrs d a1 = serialize_attrs d a2.
 Proof.
   induction a1 as [|x a1 IH]; intros [|y a2] H; try discriminate; [reflexivity|].
-  cbn [map] in H. injection H as Hxy Hr. cbn [serialize_attrs]. rewrite (IH a2 Hr).
-  unfold serialize_attr. unfold kv in Hxy. injection Hxy as Hk Hv. rewrite Hk, Hv. reflexivity.
+  cbn [map] in H. unfold kv at 1 3 in H. injection H as Hk Hv Hr. cbn [serialize_attrs]. rewrite (IH a2 Hr).
+  unfold serialize_attr. rewrite Hk, Hv. reflexivity.
 Qed.
 
 Definition attr_of_item (it : item) : attr := mkattr (item_key it) (item_node it) 0%N.
@@ -291,6 +291,15 @@ Proof.
     rewrite join_cons2. rewrite Hj. cbn [print_items]. rewrite (is_ser_w1 lay Hs). napp. reflexivity.
 Qed.
 
+Lemma ser_tok t st d lay : tok_ok t = true -> 1 < d -> is_ser lay -> serialize_attr d (mkattr None (tok_node t) st) = Ok t.
+Proof.
+  intros Ht Hd Hs. unfold serialize_attr, tok_node. cbn [a_value a_key].
+  rewrite (ser_top (SLeaf (tok_leaf t)) None d lay); [| | |cbn [vdepth]; lia|exact Hs].
+  - cbn [print_val spread_prefix app]. rewrite print_tok_leaf. reflexivity.
+  - cbn [val_ok]. apply tok_leaf_ok, Ht.
+  - cbn [sp_leaf_ok]. intro C; congruence.
+Qed.
+
 (* the canonical serialisation of the AST of a printed argument list is the same argument list printed under ser_layout *)
 Theorem serialize_is_print allowed tag a attrs d : arglist_ok tag allowed a = true -> 101 < d ->
   map kv attrs = (None, tok_node tag) :: map item_kv (items_with_slash a) ->
@@ -299,14 +308,45 @@ Proof.
   intros Hok Hd Hkv. unfold arglist_ok in Hok.
   apply andb_true_iff in Hok as [Hok _]. apply andb_true_iff in Hok as [Hok Hitems].
   apply andb_true_iff in Hok as [Hok _]. apply andb_true_iff in Hok as [Htag Hal].
-  set (allowed' := [47%N] :: tag :: allowed).
-  assert (Hal' : forallb tok_ok allowed' = true) by (subst allowed'; cbn [forallb]; rewrite Htag, Hal; reflexivity).
-  assert (Hmono : forall it, item_ok allowed it = true -> item_ok allowed' it = true).
-  { intros it H. destruct it as [v|k v|v|fl]; cbn [item_ok] in *; try exact H.
-    - apply andb_true_iff in H as [H H4]. apply andb_true_iff in H as [H H3]. rewrite H, H3. cbn [andb].
-      destruct v as [l| |]; try reflexivity. subst allowed'. cbn [not_slash] in H3. unfold str_in in *. cbn [existsb].
-      rewrite !negb_orb. rewrite H3. cbn [andb].
-      (* a positional leaf may be spelled like the tag name: item_ok only has to hold for the serialisation lemma, which does
-         not look at this clause - so weaken instead *)
-      destruct (str_eqb (canon_leaf l) tag); [|exact H4].
-Abort.
+  set (allowed' := [47%N] :: allowed).
+  assert (Hal' : forallb tok_ok allowed' = true) by (subst allowed'; cbn [forallb]; rewrite Hal; reflexivity).
+  assert (Hits : forallb (item_ok allowed') (items_with_slash a) = true).
+  { unfold items_with_slash. rewrite forallb_app. apply andb_true_iff. split.
+    - rewrite forallb_forall in *. intros it Hit. apply item_ok_slash. apply Hitems. exact Hit.
+    - destruct (al_slash a); reflexivity. }
+  set (its := items_with_slash a) in *.
+  pose proof ser_layout_is_ser as Hs.
+  destruct (ser_items allowed' d Hal' Hd its (sub ser_layout 0) (is_ser_sub _ 0 Hs) Hits) as (ss & Hss & Hj).
+  unfold serialize_tag.
+  rewrite (serialize_attrs_kv d attrs (mkattr None (tok_node tag) 0%N :: map attr_of_item its)).
+  2:{ rewrite Hkv. cbn [map kv a_key a_value]. f_equal. rewrite map_map. reflexivity. }
+  cbn [serialize_attrs]. rewrite (ser_tok tag 0%N d ser_layout Htag ltac:(lia) Hs). rewrite Hss.
+  rewrite Hj. unfold print. fold its. rewrite (is_ser_w0 ser_layout 2 Hs). cbn [ser_ix Nat.eqb orb]. rewrite app_nil_r. reflexivity.
+Qed.
+
+(* ================================================================================================ *)
+(* E. the round trip                                                                                 *)
+(* ================================================================================================ *)
+Theorem serialize_reparse_lemma allowed lay tag a d : arglist_ok tag allowed a = true -> 101 < d ->
+  exists attrs s attrs',
+    parse_tag (print lay tag a) = Ok (print lay tag a, attrs)
+    /\ serialize_tag d attrs = Ok s
+    /\ parse_tag s = Ok (s, attrs')
+    /\ map kv attrs' = map kv attrs.
+Proof.
+  intros Hok Hd.
+  destruct (parse_tag_print allowed lay tag a Hok) as (attrs & Hp & Hkv).
+  destruct (parse_tag_print allowed ser_layout tag a Hok) as (attrs' & Hp' & Hkv').
+  exists attrs, (print ser_layout tag a), attrs'.
+  split; [exact Hp|]. split; [exact (serialize_is_print allowed tag a attrs d Hok Hd Hkv)|].
+  split; [exact Hp'|]. rewrite Hkv, Hkv'. reflexivity.
+Qed.
+
+(* serialize() is idempotent on its own output: the canonical text is a fixed point of parse ; serialize *)
+Corollary canonical_fixed_point allowed tag a d : arglist_ok tag allowed a = true -> 101 < d ->
+  exists attrs, parse_tag (print ser_layout tag a) = Ok (print ser_layout tag a, attrs)
+                /\ serialize_tag d attrs = Ok (print ser_layout tag a).
+Proof.
+  intros Hok Hd. destruct (parse_tag_print allowed ser_layout tag a Hok) as (attrs & Hp & Hkv).
+  exists attrs. split; [exact Hp | exact (serialize_is_print allowed tag a attrs d Hok Hd Hkv)].
+Qed.
